@@ -631,6 +631,21 @@ fn op_typing() -> usize {
     bad
 }
 
+fn string_arith() -> usize {
+    expect_programs("string_arith", &[
+        ("\"ab\" + \"cd\"", Ok("\"abcd\"")),
+        ("\"ab\" + null", Ok("\"ab\"")),
+        ("null + \"cd\"", Ok("\"cd\"")),
+        ("\"\" + \"\"", Ok("\"\"")),
+        ("\"ab\" * 3", Ok("\"ababab\"")),
+        ("3 * \"ab\"", Ok("\"ababab\"")),
+        ("\"ab\" * 0", Ok("\"\"")),
+        ("\"ab\" * -2", Ok("\"\"")),
+        ("-1 * \"ab\"", Ok("\"\"")),
+        ("\"ab\" * 1", Ok("\"ab\"")),
+    ])
+}
+
 fn main() {
     let unit = std::env::args().nth(1).unwrap_or_default();
     let bad = match unit.as_str() {
@@ -644,6 +659,7 @@ fn main() {
         "target_faults" => target_faults(),
         "reported_paths" => reported_paths(),
         "op_typing" => op_typing(),
+        "string_arith" => string_arith(),
         _ => {
             eprintln!("unknown witness unit {unit}");
             std::process::exit(2);
